@@ -742,10 +742,12 @@ def run_history(alpha: Alphabet, seed: int, length: int, kinds=None) -> Sim:
                 perm = perm[:-1]
             elif r < 0.12 and len(perm) > 1:
                 perm[0] = perm[1]
-            # renumbering must respect radixes to keep ops valid: the call
-            # itself does not check; keep radix-preserving permutations only
-            elif any(c.radixes[perm[q]] != c.radixes[q]
-                     for q in range(c.num_qudits)):
+            # a permutation that moves a qudit to a position of another
+            # radix is valid (the radixes move with the qudits); keep a share
+            # of radix-preserving ones
+            elif rng.random() < 0.4 and any(
+                    c.radixes[perm[q]] != c.radixes[q]
+                    for q in range(c.num_qudits)):
                 idx = {}
                 for q in range(c.num_qudits):
                     idx.setdefault(c.radixes[q], []).append(q)
@@ -802,8 +804,51 @@ def run_history(alpha: Alphabet, seed: int, length: int, kinds=None) -> Sim:
                 attempt(f'unfold {p[0]} {p[1]}', f'unfold({p})',
                         lambda: c.unfold(p))
             else:
-                attempt(f'unfold {p[0]} {p[1]}', f'batch_unfold([{p}])',
-                        lambda: c.batch_unfold([p]))
+                # several blocks at once, preferably of one cycle (unfolding
+                # one pushes the others back); sometimes a point twice, a
+                # non-block or an idle point
+                pts = [p]
+                same = [b for b in blocks if b[0] == p[0] % max(1, c.num_cycles)
+                        and b != (p[0] % max(1, c.num_cycles),
+                                  p[1] % c.num_qudits)]
+                rng.shuffle(same)
+                pts += same[:rng.randint(0, 2)]
+                others = [b for b in blocks if b not in pts]
+                if others and rng.random() < 0.5:
+                    pts += rng.sample(others, min(len(others),
+                                                  rng.randint(1, 2)))
+                if rng.random() < 0.1:
+                    pts.append(rand_point(sim, c))
+                if rng.random() < 0.1:
+                    pts.append(pts[0])
+                rng.shuffle(pts)
+                for q in pts:
+                    try:
+                        o = c[q]
+                        if isinstance(o.gate, CircuitGate):
+                            sim.block_gid(o.gate)
+                    except (IndexError, TypeError):
+                        pass
+                valid = all(
+                    -c.num_cycles <= q[0] < c.num_cycles
+                    and -c.num_qudits <= q[1] < c.num_qudits
+                    and not c.is_point_idle(q)
+                    and isinstance(c[q].gate, CircuitGate) for q in pts)
+                u0 = unitary_or_none(c)
+                attempt('batch_unfold ' + ' '.join(f'{a} {b}' for a, b in pts),
+                        f'batch_unfold({pts})', lambda: c.batch_unfold(pts),
+                        lambda r: 'ok' if valid else 'ok')
+                if valid and not sim.impl[-1].startswith('ok'):
+                    sim.internal_error = (
+                        f'batch_unfold({pts})', 'every point holds a '
+                        'CircuitGate, yet the call failed: '
+                        + sim.impl[-1].split(' # ')[0])
+                    sim.impl[-1] = ('internal ValidArgs # '
+                                    + sim.impl[-1].split(' # ', 1)[1])
+                elif u0 is not None and not phase_equal(
+                        u0, unitary_or_none(c)):
+                    sim.unitary_bad = (f'batch_unfold({pts})', 'unitary '
+                                       'changed by a structure-only call')
         elif kind == 'unfold_all':
             for _, o in c.operations_with_cycles():
                 if isinstance(o.gate, CircuitGate):
